@@ -1,5 +1,5 @@
 (* C10 -- Block-wise messages respect the size budget and the client's block size. *)
-From CoapV Require Import Base Header Packet UintOpt BlockValue Encode Response Accessors BlockHandler WireSpec PacketOps proofs.PEnc proofs.P01 proofs.P11 proofs.P10.
+From CoapV Require Import Base Header Packet UintOpt BlockValue Encode Response Accessors BlockHandler WireSpec PacketOps proofs.PEnc proofs.P01 proofs.P11 proofs.P10 proofs.P10b.
 
 (* for every budget M with overhead + 28 <= M <= 1280 (overhead = encoded size without payload), whenever the handler
    picks a block size it is 2^(k+4) with k <= 6 (16..1024), at most M - overhead - 12 (so block + block options fit),
@@ -35,6 +35,14 @@ Theorem C10_insertion : forall l prev n0 v0, prev <= n0 -> n0 <= 268 -> len v0 <
   opts_len prev (insert n0 v0 l) <= opts_len prev l + 2 + len v0.
 Proof. exact insert_growth. Qed.
 Print Assumptions C10_insertion.
+
+(* whatever else a request does -- also when it is the final block of an upload -- once it is let through to the
+   application the state remembers exactly the request's own Block2 option, so the response is negotiated against the
+   size this request names (C10_chosen_size then bounds the chosen size by it) *)
+Theorem C10_request_block2_remembered : forall req M st req' st', intercept_request_st req M st = (Ok false, req', st') ->
+  last_b2 st' = first_block OPT_BLOCK2 (message req).
+Proof. exact request_block2_remembered. Qed.
+Print Assumptions C10_request_block2_remembered.
 
 Example C10_example :
   negotiate (Some (mkBlock 0 false 6)) (60 + 5000) 5000 1152 = Ok (Some (mkBlock 0 true 6)) /\
